@@ -9,7 +9,7 @@ import (
 func init() {
 	register(&Property{
 		ID: "C02", Level: "exploration", Builds: []string{"plain"},
-		Rule:        "cases = seeded mutation histories (20-400 steps over Add/CheckedAdd/AddInt/AddMany/Remove/CheckedRemove/AddRange/RemoveRange/Flip/Clear/RunOptimize/Clone/CloneCopyOnWriteContainers/SetCopyOnWrite) from a generated start bitmap in a random storage form, plus threshold 'ratchet' histories, plus ALL histories of length<=2 (quick) / <=3 (thorough) over an 8-value boundary domain; after every step the stored content (decoded from raw containers via the hook) and the public API are compared with the interval-set model. A case is non-trivial when its history changed the model at least once; distinct = distinct hash of (start set, step list).",
+		Rule:        "cases = seeded mutation histories (20-400 steps over Add/CheckedAdd/AddInt/AddMany/Remove/CheckedRemove/AddRange/RemoveRange/Flip/Clear/RunOptimize/Clone/CloneCopyOnWriteContainers/SetCopyOnWrite) from a generated start bitmap in a random storage form, plus threshold 'ratchet' histories, plus ALL histories of length<=2 (quick) / <=3 (thorough) over an 8-value boundary domain; after every step the stored content (decoded from raw containers via the hook) and the public API are compared with the interval-set model. A case is non-trivial when its history changed the model at least once; distinct = distinct hash of (start set, step list). Ranges may be empty or inverted; TrimEnds bursts remove the current maximum / minimum repeatedly; the ratchet also splits runs (removal strictly inside a run) and merges them (addition into a one-wide gap).",
 		Assumptions: []string{"the interval-set model (validated against a brute-force bitset by selfcheck)", "documented-panic arguments (AddRange/Flip end > 2^32) are out of domain and not generated"},
 		Units: []Unit{
 			{Name: "histories", Quick: 2600, Thorough: 150000, Run: c02Histories},
